@@ -63,7 +63,8 @@ class Check(DiffCheck):
             'length <= 12 on one vector (small capacities / small allocator chunks included). non-trivial = the vector has >= 2 '
             'elements or a zero-length element and the operation takes a byte count')
     assumptions = ['elements lie inside their buffers and (for writes into the vector) do not overlap; slice offset >= 0',
-                   'model follows the FIXED iov_iterator constructor (repo_patches/C14-fix-iov-iterator-empty.diff)']
+                   'model follows the FIXED iov_iterator constructor (repo_patches/C14-fix-iov-iterator-empty.diff)',
+                   'model follows the FIXED extract_front/back(bytes, iovector*) (repo_patches/C14-fix-extract-into-iovector-capacity.diff)']
     trusted_base = ['harness allocator (min(size.max, chunk) bytes per call) stands for IOAlloc', 'ASan+UBSan (minus null/alignment/vptr) on harness + common/iovector.cpp', 'harness/C14/alog_stub.cpp replaces common/alog.cpp (logging disabled)']
     case_timeout = 900
 
@@ -115,8 +116,9 @@ class Check(DiffCheck):
                         cs.append('%s ; %s %d' % (h, op, n))
                     cs.append('%s ; %s %d' % (h, 'trunc' if own else 'shrinklt', n))
                     if own:
-                        for (sl, rf2) in ((0, 0), (1, 2)):
-                            cs.append('%s ; xfo %d %d %d' % (h, n, sl, rf2)); cs.append('%s ; xbo %d %d %d' % (h, n, sl, rf2))
+                        L = len(sh)
+                        for (c2, rf2) in sorted(set([(L, 0), (L + 3, 2), (L + 1, 2), (max(L - 1, 0), 0), (8, 0)])):
+                            cs.append('%s ; xfo %d %d %d' % (h, n, c2, rf2)); cs.append('%s ; xbo %d %d %d' % (h, n, c2, rf2))
                     for N in sorted(set([0, 1, 2, len(sh), len(sh) + 1])):
                         if quick and N == 2 and len(sh) != 2 and len(sh) != 3: continue
                         cs.append('%s ; xfv %d %d' % (h, n, N))
@@ -132,7 +134,7 @@ class Check(DiffCheck):
                         for op in ('mtov', 'mfromv', 'ptov', 'pfromv'):
                             cs.append('%s ; %s %s %d' % (h, op, shape_s(ds), n))
                 if own:
-                    for op in ('popf', 'popb', 'clear', 'pushb 2', 'pushf 2', 'pushb 0', 'pushba 3', 'pushfa 3', 'xfo 18446744073709551615 0 0', 'xbo 18446744073709551615 2 1'):
+                    for op in ('popf', 'popb', 'clear', 'pushb 2', 'pushf 2', 'pushb 0', 'pushba 3', 'pushfa 3', 'xfo 18446744073709551615 8 0', 'xbo 18446744073709551615 9 1'):
                         cs.append('%s ; %s' % (h, op))
         # small capacity / small allocator chunk: the allocating paths and their failure branches
         for sh in shapes:
@@ -211,7 +213,8 @@ class Check(DiffCheck):
         if op in ('xfv', 'xbv'):
             return '%s %d %d' % (op, self._rand_count(rng, S, False), rng.choice([0, 0, 1, 2, ne, ne + 1, rng.randrange(0, 8)]))
         if op in ('xfo', 'xbo'):
-            return '%s %d %d %d' % (op, self._rand_count(rng, S, False), rng.choice([0, 0, 1, 3]), rng.choice([0, 0, 1, 4]))
+            c2 = rng.choice([0, 1, 2, 3, 4, 6, 8, 36, ne, ne + 1, max(ne - 1, 0)]); rf2 = rng.choice([0, 0, 1, 2, 4])
+            return '%s %d %d %d' % (op, self._rand_count(rng, S, False), max(c2, rf2), rf2)
         if op == 'slice':
             return 'slice %d %d %d' % (self._rand_count(rng, S, False), rng.randrange(0, S + 3), rng.choice([0, 0, 1, 2, ne, ne + 1, rng.randrange(0, 8)]))
         if op in ('mtov', 'mfromv', 'ptov', 'pfromv'):
@@ -361,7 +364,13 @@ class Check(DiffCheck):
                 if G != F[S - k:] or F2 != F[:S - k]: return 'extracted / remaining bytes differ from the last / first bytes'
         elif op in ('xfo', 'xbo'):
             k = min(n, S)
-            if ret != k: return 'returned %d, flat string gives %d (the destination vector has a slot for every element)' % (ret, k)
+            room = int(args[1]) - int(args[2])           # free iovs[] slots of the destination vector
+            if ret == -1:
+                if n == 0 or room >= ne: return '-1 although the destination vector has a slot for every element'
+                if F2 != F or G != b'': return '-1 must leave both vectors untouched'
+                return None
+            if n > 0 and room < ne: return 'destination has %d slots for %d elements: expected -1, got %d' % (room, ne, ret)
+            if ret != k: return 'returned %d, flat string gives %d' % (ret, k)
             if op == 'xfo':
                 if G != F[:k] or F2 != F[k:]: return 'destination / remaining bytes differ from take/drop %d' % k
             else:
